@@ -57,7 +57,8 @@ ASSUMPTIONS = [
 ]
 REQUIRED = ["tables_exhaustive", "tables_random", "is_single_root_checked", "has_cyclic_checked",
             "is_sorted_checked", "is_bifurcate_checked", "cyclic_tables", "forest_tables",
-            "dsu_histories", "dsu_pair_queries", "dsu_invariant_evaluations", "repair_off",
+            "dsu_histories", "dsu_pair_queries", "dsu_invariant_evaluations", "dsu_histories_interleaved",
+            "dsu_library_use_between_queries", "repair_off",
             "repair_somas", "repair_nearest", "repair_table_functions", "repair_three_or_more_roots",
             "step_budget_calls", "frames_with_other_index", "rejected_calls_before_has_cyclic",
             "tables_regular_families", "checkers_on_int32_arrays",
@@ -270,48 +271,68 @@ def check_dsu(ctx, case):
 
     _install_dsu_invariant()
     rng = np.random.default_rng(case["seed"])
-    n, nops, mode = case["n"], case["nops"], case["mode"]
-    d = DisjointSetUnion(n)
-    label = list(range(n))  # naive partition model
+    n0, nops, mode = case["n"], case["nops"], case["mode"]
+    # one structure, or several live ones used in turns (each answers for its own unions only);
+    # between two steps the library's own user of the structure (has_cyclic) may run as well
+    twins = int(case.get("twins", 1))
+    sizes = [n0] + [max(2, n0 + int(rng.integers(-3, 4))) for _ in range(twins - 1)]
+    ds = [DisjointSetUnion(m) for m in sizes]
+    labels = [list(range(m)) for m in sizes]  # naive partition models
     ctx.count("dsu_histories")
+    if twins > 1:
+        ctx.count("dsu_histories_interleaved")
     ops = []
     for step in range(nops):
+        w = int(rng.integers(0, twins))
+        d, label, n = ds[w], labels[w], sizes[w]
         a, b = int(rng.integers(0, n)), int(rng.integers(0, n))
         if mode == "chainy" and rng.random() < 0.7:
             # merge big with singleton-ish: long uncompressed paths if rank logic is wrong
             b = int(rng.integers(0, n))
             a = step % n
+        if twins > 1 and rng.random() < 0.15:
+            from swcgeom.core import swc_utils as su_
+
+            m_ = int(rng.integers(2, 9))
+            pp = np.array([-1] + [int(rng.integers(0, i)) for i in range(1, m_)])
+            su_.has_cyclic((np.arange(m_), pp))
+            ctx.count("dsu_library_use_between_queries")
         u = rng.random()
         if u < 0.6:
-            ops.append(("union", a, b))
+            ops.append((w, "union", a, b))
             d.union_sets(a, b)
             la, lb = label[a], label[b]
             if la != lb:
-                label = [la if x == lb else x for x in label]
+                label[:] = [la if x == lb else x for x in label]
         elif u < 0.8:
-            ops.append(("same", a, b))
+            ops.append((w, "same", a, b))
             got = d.is_same_set(a, b)
             ctx.count("dsu_pair_queries")
             if bool(got) != (label[a] == label[b]):
                 return ctx.violation("dsu-same-set-wrong",
-                                     f"after {ops[-8:]}: is_same_set({a},{b}) = {got}, the unions "
-                                     f"performed say {label[a] == label[b]}", case)
+                                     f"after {ops[-8:]} (structure, op, args): is_same_set({a},{b}) "
+                                     f"= {got}, the unions performed on that structure say "
+                                     f"{label[a] == label[b]}", case)
         else:
-            ops.append(("find", a))
+            ops.append((w, "find", a))
             r = d.find_parent(a)
-            if label[r] != label[a]:
-                return ctx.violation("dsu-find-wrong", f"find_parent({a}) = {r}, which the unions "
-                                                       f"performed never joined with {a}", case)
+            if not (0 <= int(r) < n) or label[r] != label[a]:
+                return ctx.violation("dsu-find-wrong", f"after {ops[-8:]}: find_parent({a}) = {r}, "
+                                                       f"which the unions performed never joined "
+                                                       f"with {a}", case)
         if mode == "allpairs" or step == nops - 1:
-            for i in range(n):
-                for j in range(i, n):
-                    ctx.count("dsu_pair_queries")
-                    got = d.is_same_set(i, j)
-                    if bool(got) != (label[i] == label[j]):
-                        return ctx.violation(
-                            "dsu-same-set-wrong",
-                            f"after {len(ops)} ops (last {ops[-6:]}): is_same_set({i},{j}) = {got}, "
-                            f"the unions performed say {label[i] == label[j]}", case)
+            for w2 in range(twins):
+                d2, label2 = ds[w2], labels[w2]
+                for i in range(sizes[w2]):
+                    for j in range(i, sizes[w2]):
+                        ctx.count("dsu_pair_queries")
+                        got = d2.is_same_set(i, j)
+                        if bool(got) != (label2[i] == label2[j]):
+                            return ctx.violation(
+                                "dsu-same-set-wrong",
+                                f"after {len(ops)} ops (last {ops[-6:]}): structure {w2}: "
+                                f"is_same_set({i},{j}) = {got}, the unions performed say "
+                                f"{label2[i] == label2[j]}", case)
         if _DsuInv.problems:
             p = _DsuInv.problems[0]
             _DsuInv.problems.clear()
@@ -681,6 +702,8 @@ def run(ctx):
                 "mode": str(rng.choice(["allpairs", "end", "chainy"]))}
         if case["mode"] == "allpairs":
             case["n"] = min(case["n"], 16)
+        if rng.random() < 0.4:
+            case["twins"] = int(rng.integers(2, 4))
         ctx.case(case, klass="dsu/" + case["mode"])
         execute(ctx, case)
     ctx.count("dsu_invariant_evaluations", _DsuInv.evals)
